@@ -135,12 +135,21 @@ pub(super) fn map_i64(map: &BTreeMap<String, Value>, key: &str) -> Option<i64> {
     }
 }
 
+// Out-of-range components saturate instead of wrapping: a wrapped value could land back in the
+// valid range (`month: 4294967297` became month 1), a saturated one is rejected by chrono like
+// any other invalid component.
 pub(super) fn map_i32(map: &BTreeMap<String, Value>, key: &str) -> Option<i32> {
-    map_i64(map, key).map(|v| v as i32)
+    map_i64(map, key).map(|v| v.clamp(i64::from(i32::MIN), i64::from(i32::MAX)) as i32)
 }
 
 pub(super) fn map_u32(map: &BTreeMap<String, Value>, key: &str) -> Option<u32> {
-    map_i64(map, key).and_then(|v| if v >= 0 { Some(v as u32) } else { None })
+    map_i64(map, key).and_then(|v| {
+        if v >= 0 {
+            Some(u32::try_from(v).unwrap_or(u32::MAX))
+        } else {
+            None
+        }
+    })
 }
 
 pub(super) fn map_string(map: &BTreeMap<String, Value>, key: &str) -> Option<String> {
